@@ -176,7 +176,7 @@ def run_part(prop, pi, part, hdir, tier, seed, args, logdir):
                         if a != b and a in b:
                             raise SystemExit(f'harness name {a} is a substring of {b} (give the part a modpath)')
             tmo = args.timeout or part.get('timeout', {}).get(tier, 900 if tier == 'quick' else 7200)
-            mem = part.get('mem_gb', {}).get(tier, 16 if tier == 'quick' else 40)
+            mem = part.get('mem_gb', {}).get(tier, 16 if tier == 'quick' else 24)
             jobs = min(args.jobs, part.get('max_jobs', {}).get(tier, args.jobs), len(sel))
             log(f'[{prop}] part {pi} ({engine}): {len(sel)} harnesses, tier {tier}, {jobs} parallel, '
                 f'{tmo}s/harness, building ...')
